@@ -232,6 +232,12 @@ func (evkg EvaluationKeyGenProtocol) AggregateShares(share1, share2 EvaluationKe
 	BaseRNSDecompositionVectorSize := share1.BaseRNSDecompositionVectorSize()
 	BaseTwoDecompositionVectorSize := share1.BaseTwoDecompositionVectorSize()
 
+	if share1.BaseTwoDecomposition != share2.BaseTwoDecomposition || share1.BaseTwoDecomposition != share3.BaseTwoDecomposition ||
+		!slices.Equal(BaseTwoDecompositionVectorSize, share2.BaseTwoDecompositionVectorSize()) ||
+		!slices.Equal(BaseTwoDecompositionVectorSize, share3.BaseTwoDecompositionVectorSize()) {
+		return fmt.Errorf("cannot AggregateShares: share BaseTwoDecomposition do not match")
+	}
+
 	for i := 0; i < BaseRNSDecompositionVectorSize; i++ {
 		for j := 0; j < BaseTwoDecompositionVectorSize[i]; j++ {
 			ringQP.Add(m1[i][j][0], m2[i][j][0], m3[i][j][0])
@@ -255,10 +261,18 @@ func (evkg EvaluationKeyGenProtocol) GenEvaluationKey(share EvaluationKeyGenShar
 	m := share.Value
 	p := crp.Value
 
-	BaseRNSDecompositionVectorSize := len(m)
-	BaseTwoDecompositionVectorSize := len(m[0])
-	for i := 0; i < BaseRNSDecompositionVectorSize; i++ {
-		for j := 0; j < BaseTwoDecompositionVectorSize; j++ {
+	if len(evk.Value) != len(m) || len(p) != len(m) {
+		return fmt.Errorf("cannot GenEvaluationKey: share, crp and evk BaseRNSDecompositionVectorSize do not match")
+	}
+
+	for i := range m {
+
+		// The number of digits of the power of two decomposition depends on the size of the i-th prime
+		if len(evk.Value[i]) != len(m[i]) || len(p[i]) != len(m[i]) {
+			return fmt.Errorf("cannot GenEvaluationKey: share, crp and evk BaseTwoDecompositionVectorSize do not match")
+		}
+
+		for j := range m[i] {
 			evk.Value[i][j][0].Copy(m[i][j][0])
 			evk.Value[i][j][1].Copy(p[i][j])
 		}
